@@ -103,6 +103,20 @@ func (c *Ctx) Fail(prop, oracle, signature, format string, args ...interface{}) 
 	if c.viol != nil {
 		return
 	}
+	if len(ownProps) > 0 && prop != "HARNESS" {
+		own := false
+		for _, o := range ownProps {
+			if o == prop {
+				own = true
+			}
+		}
+		if !own {
+			// a sibling property's oracle fired in a shared scenario: that property's own check
+			// reports it; here it is counted and must not cut the exploration short
+			c.known = append(c.known, "foreign:"+prop+":"+oracle)
+			return
+		}
+	}
 	for _, k := range knownSigs {
 		if k == signature {
 			// an open, listed finding: count it, do not stop — it must hide only itself
@@ -152,6 +166,7 @@ type Result struct {
 }
 
 var knownSigs []string
+var ownProps []string
 
 func env(k, d string) string {
 	if v := os.Getenv(k); v != "" {
@@ -197,6 +212,11 @@ func Main(t *testing.T, scens map[string]Scenario) {
 	for _, k := range strings.Split(env("VW_KNOWN", ""), ";") {
 		if k != "" {
 			knownSigs = append(knownSigs, k)
+		}
+	}
+	for _, k := range strings.Split(env("VW_OWN", ""), ",") {
+		if k != "" {
+			ownProps = append(ownProps, k)
 		}
 	}
 	res := &Result{Known: map[string]int{}, Scenario: name, Cfg: cfg, Seed: seed, From: from, Faults: map[string]int{}, Probes: map[string]int{}, ViolRun: -1}
